@@ -1,0 +1,63 @@
+//go:build verif
+
+// Contracts for the deductive verification in /verif (comment-only; compiled code is unaffected).
+package receiver
+
+// the caller's authenticated name as put into the context by the client-info interceptor (C19)
+//@ spec callerName(ctx any) any = ctxval(ctx, tagof("*interceptors.ClientName"))
+//@ spec isPeerName(h *Handler, ctx any) bool = hastype(callerName(ctx), "string") && (exists id uint64 :: id != 0 && id in peersAll(h.peers) && peersAll(h.peers)[id].Name == unbox(callerName(ctx), "string"))
+
+//@ func (*Handler).senderID
+//@ requires h != nil
+//@ requires [peers] forall id uint64 :: id in peersAll(h.peers) ==> peersAll(h.peers)[id] != nil
+//@ requires [uniquenames] forall a uint64, b uint64 :: a != b && a in peersAll(h.peers) && b in peersAll(h.peers) ==> peersAll(h.peers)[a].Name != peersAll(h.peers)[b].Name
+//@ ensures [found] result != 0 ==> hastype(callerName(ctx), "string") && result in peersAll(h.peers) && peersAll(h.peers)[result].Name == unbox(callerName(ctx), "string")
+//@ ensures [complete] isPeerName(h, ctx) ==> result != 0
+//@ loop #1
+//@ invariant [nomatch] forall k uint64 :: visited()[k] && k != 0 ==> peersAll(h.peers)[k].Name != unbox(callerName(ctx), "string")
+
+//@ func (*Handler).Abort
+//@ requires h != nil && req != nil
+//@ requires [peers] forall id uint64 :: id in peersAll(h.peers) ==> peersAll(h.peers)[id] != nil
+//@ requires [uniquenames] forall a uint64, b uint64 :: a != b && a in peersAll(h.peers) && b in peersAll(h.peers) ==> peersAll(h.peers)[a].Name != peersAll(h.peers)[b].Name
+//@ modifies procstate
+//@ ensures [peeronly] result1 == nil ==> isPeerName(h, ctx)
+//@ ensures [refused] !isPeerName(h, ctx) ==> result1 != nil && procstate == old(procstate)
+
+//@ func (*Handler).Execute
+//@ requires h != nil && req != nil
+//@ requires [peers] forall id uint64 :: id in peersAll(h.peers) ==> peersAll(h.peers)[id] != nil
+//@ requires [uniquenames] forall a uint64, b uint64 :: a != b && a in peersAll(h.peers) && b in peersAll(h.peers) ==> peersAll(h.peers)[a].Name != peersAll(h.peers)[b].Name
+//@ modifies procstate
+//@ ensures [peeronly] result1 == nil ==> isPeerName(h, ctx)
+//@ ensures [refused] !isPeerName(h, ctx) ==> result1 != nil && procstate == old(procstate)
+
+//@ func (*Handler).Commit
+//@ requires h != nil && req != nil
+//@ requires [peers] forall id uint64 :: id in peersAll(h.peers) ==> peersAll(h.peers)[id] != nil
+//@ requires [uniquenames] forall a uint64, b uint64 :: a != b && a in peersAll(h.peers) && b in peersAll(h.peers) ==> peersAll(h.peers)[a].Name != peersAll(h.peers)[b].Name
+//@ modifies procstate
+//@ ensures [peeronly] result1 == nil ==> isPeerName(h, ctx)
+//@ ensures [refused] !isPeerName(h, ctx) ==> result1 != nil && procstate == old(procstate)
+
+//@ func (*Handler).Prepare
+//@ requires h != nil && req != nil
+//@ requires [peers] forall id uint64 :: id in peersAll(h.peers) ==> peersAll(h.peers)[id] != nil
+//@ requires [uniquenames] forall a uint64, b uint64 :: a != b && a in peersAll(h.peers) && b in peersAll(h.peers) ==> peersAll(h.peers)[a].Name != peersAll(h.peers)[b].Name
+//@ modifies procstate
+//@ ensures [peeronly] result1 == nil ==> isPeerName(h, ctx)
+//@ ensures [refused] !isPeerName(h, ctx) ==> result1 != nil && procstate == old(procstate)
+//@ loop #1
+//@ invariant true
+
+//@ func (*Handler).Contribute
+//@ requires h != nil && req != nil
+//@ requires [peers] forall id uint64 :: id in peersAll(h.peers) ==> peersAll(h.peers)[id] != nil
+//@ requires [uniquenames] forall a uint64, b uint64 :: a != b && a in peersAll(h.peers) && b in peersAll(h.peers) ==> peersAll(h.peers)[a].Name != peersAll(h.peers)[b].Name
+//@ modifies procstate
+//@ ensures [peeronly] result1 == nil ==> isPeerName(h, ctx)
+//@ ensures [refused] !isPeerName(h, ctx) ==> result1 != nil && procstate == old(procstate)
+//@ loop #1
+//@ invariant true
+//@ loop #2
+//@ invariant true
